@@ -16,9 +16,13 @@ This module
       tendencies (explicit, implicit, implicit_inverse) and short trajectories, all equation classes, several
       integrators and filters, both spherical-harmonic implementations, gauss and equiangular latitudes.
 
-Tolerances.  Measured on the unchanged tree (float64): (b) <= 3e-14, (c) <= 2e-13 relative to the leaf scale
-(typically 1e-15 .. 7e-15).  The thresholds are 1e-10 for (b) and 1e-9 for (c): four orders above rounding, and far
-below the effect of any change of a coefficient, sign or index (>= 1e-6 relative).
+Tolerances.  Measured on the unchanged tree (float64): operator hypotheses of (b) <= 3e-14, (c) <= 2e-13 relative
+to the leaf scale (typically 1e-15 .. 7e-15).  The thresholds are 1e-10 for (b) and 1e-9 for (c): four orders above
+rounding, and far below the effect of any change of a coefficient, sign or index (>= 1e-6 relative).  Table
+checks of (b): `scipy.linalg.dft` against cos/sin deviates by about N * 2e-16 (1.2e-14 at N = 49, 1.8e-13 at
+N = 1024) -> threshold 1e-11; equiangular nodes are symmetric to 4e-16 and their weights (a linear solve) to
+1.2e-14 at 64 nodes -> thresholds 1e-13 / 1e-10; sec2_lat next to the poles amplifies the node asymmetry by
+2 / cos^2(lat) (3e-13 at 32 equiangular nodes) -> threshold 1e-10.
 """
 import numpy as np
 
@@ -346,15 +350,15 @@ def _hypotheses(ctx, E):
                      dict(inp, grid=gname))
 
         # node / weight symmetry (SymNodes, SymWeights) and the TrigTable reading of basis.f
-        rec('SymNodes', float(np.abs(sin_lat[::-1] + sin_lat).max()), {}, 1e-14)
-        rec('SymWeights', float(np.abs(w[::-1] - w).max() / np.abs(w).max()), {}, 1e-12)
+        rec('SymNodes', float(np.abs(sin_lat[::-1] + sin_lat).max()), {}, 1e-13)
+        rec('SymWeights', float(np.abs(w[::-1] - w).max() / np.abs(w).max()), {}, 1e-10)
         cs, sn = _tables(N)
         i = np.arange(N)
         fast = impl == 'fast'
         for m in range(1, M):
           c0 = (2 * m) if fast else (2 * m - 1)
-          rec('basis.f=cos-table', float(np.abs(f[:N, c0] - cs[(i * m) % N] / np.sqrt(np.pi)).max()), dict(m=m), 1e-14)
-          rec('basis.f=sin-table', float(np.abs(f[:N, c0 + 1] - sn[(i * m) % N] / np.sqrt(np.pi)).max()), dict(m=m), 1e-14)
+          rec('basis.f=cos-table', float(np.abs(f[:N, c0] - cs[(i * m) % N] / np.sqrt(np.pi)).max()), dict(m=m), 1e-11)
+          rec('basis.f=sin-table', float(np.abs(f[:N, c0 + 1] - sn[(i * m) % N] / np.sqrt(np.pi)).max()), dict(m=m), 1e-11)
         rec('basis.f=const', float(np.abs(f[:N, 0] - 1 / np.sqrt(2 * np.pi)).max()), {}, 1e-15)
         if fast:
           rec('basis.f=zero-imag', float(np.abs(f[:N, 1]).max()), {}, 0.0)
@@ -393,12 +397,17 @@ def _hypotheses(ctx, E):
               rec('clip', _rel(g.clip_wavenumbers(J_(S.modal(xx))), S.modal(g.clip_wavenumbers(J_(xx)))),
                   dict(inp, spectrum=lab))
             rec('toModal', _rel(g.to_modal(J_(S.nodal(z))), S.modal(g.to_modal(J_(z)))), inp)
-            rec('cosLat', _rel(S.nodal(cosl), cosl), inp, 1e-15)
-            rec('sec2Lat', _rel(S.nodal(sec2), sec2), inp, 1e-13)
-            rec('sinLat', _rel(S.nodal(sinl), S.eps * sinl), inp, 1e-14)
+            rec('cosLat', _rel(S.nodal(cosl), cosl), inp, 1e-13)
+            rec('sec2Lat', _rel(S.nodal(sec2), sec2), inp, 1e-10)
+            rec('sinLat', _rel(S.nodal(sinl), S.eps * sinl), inp, 1e-13)
             rec('oneModal', _rel(S.modal(one), one), inp, 1e-15)
-            # odd fields: vorticity transforms with the sign eps
+            # odd fields: vorticity transforms with the sign eps; every operation commutes with that sign
             rec('eps*eps=1', abs(S.eps * S.eps - 1.0), inp, 0.0)
+            if S.k is None:
+              for nm, op, arg in (('toNodal', g.to_nodal, x), ('toModal', g.to_modal, z), ('dDlon', g.d_dlon, x),
+                                  ('cosLatDDlat', g.cos_lat_d_dlat, x), ('secLatDDlatCos2', g.sec_lat_d_dlat_cos2, x),
+                                  ('inverseLaplacian', g.inverse_laplacian, x), ('clip', g.clip_wavenumbers, x)):
+                rec(nm + '_eps', _rel(op(J_(S.eps * arg)), S.eps * np.asarray(op(J_(arg)))), inp, 0.0)
   ctx.notes.append(f'(b) hypotheses on real grids: worst relative defect {worst:.2e} (threshold {HYP_TOL:.0e})')
 
 
@@ -586,7 +595,7 @@ def _probes(ctx, E, worst):
       return res
 
     ks = _ks(rng, N)
-    sel = [ks[(ci + ctx.seed) % len(ks)]] if ctx.quick else ks
+    sel = [ks[(ci + ctx.seed) % len(ks)], ks[(ci + ctx.seed + 2) % len(ks)]] if ctx.quick else ks
     syms = [Sym(grid, k) for k in dict.fromkeys(sel)] + [Sym(grid, None)]
     key0 = f'probe:{cls}'
     ref = None
